@@ -1,7 +1,7 @@
 """C17 - reply-code exceptions and protocol constants match the specification."""
 import inspect
 
-from pbt import spec_table
+from pbt import optchild, spec_table
 from pbt.lib import exceptions, heartbeat
 from pbt.runner import Component, Violation
 from pamqp import constants
@@ -112,4 +112,10 @@ COMPONENTS = [
               distinct_by_construction=True, exhaustive=True,
               shards={'quick': 1, 'thorough': 1},
               describe='18 reply codes x 5 facets, mapping facets, 11 constants'),
+    Component('interpreter-flags', optchild.flagged('C17', check),
+              bulk=optchild.make_bulk('C17', ['table']),
+              distinct_by_construction=True, exhaustive=True,
+              shards={'quick': 1, 'thorough': 1},
+              describe='the same table re-checked in child interpreters started with -O '
+                       'and -OO (asserts / docstrings stripped)'),
 ]
